@@ -210,8 +210,21 @@ void varintAdaptiveAnalyze(const uint64_t *values, size_t count,
     stats->isSorted = (sortedness == 1);
     stats->isReverseSorted = (sortedness == -1);
 
-    /* Count unique values (may be approximate for large arrays) */
-    stats->uniqueCount = varintAdaptiveCountUnique(values, count);
+    /* Count unique values. In a sorted array equal values are neighbours, so
+     * the count is exact and needs no scratch memory; this also keeps an
+     * out-of-memory estimate from ever presenting duplicates as a set (which
+     * would select BITMAP and drop them). Otherwise the count may be
+     * approximate for large arrays. */
+    if (sortedness != 0) {
+        stats->uniqueCount = 1;
+        for (size_t i = 1; i < count; i++) {
+            if (values[i] != values[i - 1]) {
+                stats->uniqueCount++;
+            }
+        }
+    } else {
+        stats->uniqueCount = varintAdaptiveCountUnique(values, count);
+    }
     stats->uniqueRatio = (float)stats->uniqueCount / (float)count;
 
     /* Compute delta statistics */
